@@ -38,6 +38,24 @@ theorem depth_bounded (look : Bytes → Lookup) (n : Bytes) (hn : DOLLAR ∉ n) 
     simp only [internalResolve, htok, expandMacro, expandCore, hself, hne, if_false]
     simp [ih false, bind, Except.bind]
 
+/-- The recursion limit never changes a result: what resolves within a budget resolves to the same
+    value within every larger budget (the limit can only turn a result into the recursion error). -/
+theorem fuel_monotone (look : Bytes → Lookup) (fuel : Nat) :
+    ∀ esc s r, internalResolve look fuel esc s = .ok r → internalResolve look (fuel + 1) esc s = .ok r := by
+  induction fuel with
+  | zero => intro esc s r hr; simp [internalResolve, throw, throwThe, MonadExceptOf.throw] at hr
+  | succ f ih =>
+    intro esc s r hr
+    have hext : Extends (fun t => internalResolve look f false t) (fun t => internalResolve look (f + 1) false t) :=
+      fun t r h => ih false t r h
+    rw [internalResolve] at hr ⊢
+    split at hr
+    · exact expandMacro_mono look _ _ hext esc _ r hr
+    · simp only [bind, Except.bind] at hr ⊢
+      cases h1 : concatToks look (fun t => internalResolve look f false t) esc (tokenize s) with
+      | error x => simp [h1] at hr
+      | ok p => rw [h1] at hr; rw [concatToks_mono look _ _ hext esc _ p h1]; exact hr
+
 example : internalResolve
     (resolveMacro [{ rname := [104], vars := [([115], .str [36, 115, 36])], attrs := [] }]) 15 false [36, 115, 36] = .error .recursion := by decide
 
@@ -46,10 +64,6 @@ example : internalResolve
 /-- The rest of a string after a macro is processed on its own (the inserted text is not rescanned). -/
 abbrev restOf (look : Bytes → Lookup) (fuel : Nat) (esc : Bool) (q : Bytes) : Except Err (Bytes × Bool) :=
   concatToks look (fun t => internalResolve look fuel false t) esc (tokenize q)
-
-theorem expand_dollar (look : Bytes → Lookup) (rec : Bytes → Res) (hempty : look [] = .notFound) :
-    expandMacro look rec false [] = .ok (.str [DOLLAR], false) := by
-  simp [expandMacro, expandCore, hempty, pure, Except.pure, bind, Except.bind]
 
 /-- `$$` yields a literal dollar sign, wherever it stands: `p $$ q` resolves to `p`, `$`, and whatever
     `q` resolves to on its own (no variable is named ""). -/
@@ -72,11 +86,6 @@ theorem dollar_escape (look : Bytes → Lookup) (fuel : Nat) (p q : Bytes) (hp :
     cases concatToks look (fun t => internalResolve look fuel false t) false (tokenize q) with
     | error e => rfl
     | ok r => simp [Except.map, pure, Except.pure]
-
-theorem expand_plain (look : Bytes → Lookup) (rec : Bytes → Res) (m v : Bytes) (hm : m ≠ [])
-    (hv : look m = .found (.str v) false) :
-    expandMacro look rec false m = .ok (.str v, false) := by
-  simp [expandMacro, expandCore, hv, hm, pure, Except.pure, bind, Except.bind]
 
 /-- Verbatim insertion: the value `v` of a non-recursive macro (an attribute such as `address`, the
     previous plugin output, …) is inserted untouched whatever bytes it contains — `$`, quotes, newlines —
@@ -111,6 +120,38 @@ example : internalResolve
     ([45, 72, 32] ++ 36 :: ([97] ++ 36 :: [32, 36, 36]))
     = .ok (.str [45, 72, 32, 36, 40, 120, 41, 39, 32, 10, 32, 36], false) := by decide
 
+/-! ## The `resolvedMacros` cache (remote execution) -/
+
+/-- Resolution from the `resolvedMacros` cache equals the direct resolution — value, missing flag AND the
+    shell escaping (`esc` is the same on both sides: the cache holds unescaped values, the use pass escapes
+    them exactly as the direct pass does) — for every string all of whose macros are faithfully cached.
+    PARTIAL: the hypothesis excludes macros whose value contains a missing NESTED macro; for those the
+    statement is false of the code (`cached_path_nested_missing_counterexample`, F-C09b). -/
+theorem cached_path_equals_direct_partial (look c : Bytes → Lookup) (fuel : Nat) (esc : Bool) (s : Bytes)
+    (h : ∀ n ∈ macroNames (tokenize s), CacheOK look c (fun t => internalResolve look fuel false t) n) :
+    internalResolve c (fuel + 1) esc s = internalResolve look (fuel + 1) esc s := by
+  simp only [internalResolve]
+  split
+  · next n htok =>
+    exact expandMacro_cached look c _ _ esc n (h n (by simp [htok, macroNames]))
+  · rw [concatToks_cached look c _ _ esc (tokenize s) h]
+
+/-- FULL STATEMENT (false of the unchanged code): "the executing node's argv equals the argv of a local
+    execution".  Host variable `a = "x$nx$y"` (`nx` undefined), argument `-k = "$a$"`: the direct pass
+    drops the argument (a macro is missing), the fill pass stores `a ↦ "xy"`, and the use pass — which
+    cannot know that something was missing — passes `-k xy`. -/
+theorem cached_path_nested_missing_counterexample :
+    let look := resolveMacro [{ rname := [104], vars := [([97], .str [120, 36, 110, 120, 36, 121])], attrs := [] }]
+    let args : Option (List ArgSpec) := some [{ dkey := [45, 107], value := .str [36, 97, 36] }]
+    cacheEntry look 14 [97] = some (.str [120, 121]) ∧
+    resolveArguments look 0 (.arr [[47, 112]]) args = .ok (.argv [[47, 112]]) ∧
+    resolveArguments (cacheLookup [([97], .str [120, 121])]) 0 (.arr [[47, 112]]) args
+      = .ok (.argv [[47, 112], [45, 107], [120, 121]]) := by decide
+
+-- hypothesis satisfiable, with escaping: `$address$` = "a'b $(x)" from the cache, string command line
+example : internalResolve (cacheLookup [([97], .str [97, 39, 98, 32, 36, 40, 120, 41])]) 14 true [47, 112, 32, 36, 97, 36]
+    = internalResolve (resolveMacro [{ rname := [104], vars := [], attrs := [([97], .str [97, 39, 98, 32, 36, 40, 120, 41])] }]) 14 true [47, 112, 32, 36, 97, 36] := by decide
+
 /-! ## Shell quoting: `Utility::EscapeShellArg` against the sh lexer -/
 
 /-- Round trip of the shell quoting, in its strongest (lexer-state) form: when the lexer is in its
@@ -120,15 +161,8 @@ example : internalResolve
     finished, none is lost.  Whatever follows is then read as it would be read after that word. -/
 theorem shell_quote_roundtrip (s : ShSt) (hmode : s.mode = .unq) (v suffix : Bytes) :
     shRun s (escapeShellArg v ++ suffix)
-      = shRun { done := s.done, cur := some (s.cur.getD [] ++ v), mode := .unq } suffix := by
-  obtain ⟨done, cur, mode⟩ := s
-  simp only at hmode
-  subst hmode
-  have h1 : shRun { done := done, cur := cur, mode := .unq } (escapeShellArg v ++ suffix)
-      = shRun { done := done, cur := some (cur.getD []), mode := .sq } (escBody v ++ SQUOTE :: suffix) := by
-    simp [escapeShellArg, shRun, shStep, SQUOTE, bind, Except.bind, pure, Except.pure]
-  rw [h1, shRun_append, shRun_escBody]
-  simp [shRun, shStep, bind, Except.bind, pure, Except.pure]
+      = shRun { done := s.done, cur := some (s.cur.getD [] ++ v), mode := .unq } suffix :=
+  shRun_escapeShellArg s hmode v suffix
 
 /-- The same after an arbitrary prefix that leaves the lexer unquoted (`--opt=`, earlier arguments, …). -/
 theorem shell_quote_roundtrip_prefix (pre v suffix : Bytes) (s : ShSt) (hpre : shRun {} pre = .ok s) (hmode : s.mode = .unq) :
@@ -166,18 +200,6 @@ theorem shell_quote_needs_unquoted_counterexample :
 
 /-! ## Argument vector: shape and values -/
 
-theorem fill_elem (key v : Bytes) (sep : Option Bytes) (addKey addValue : Bool) (rest : List Slot) (vs : List Bytes) :
-    fill key (sep.getD []) (elemSlots addKey addValue sep.isSome ++ rest) (v :: vs)
-      = addArgumentHelper key v addKey addValue sep ++ fill key (sep.getD []) rest vs := by
-  cases addKey <;> cases addValue <;> cases sep <;> simp [elemSlots, addArgumentHelper, fill]
-
-theorem emitArr_eq_fill (a : RArg) (first : Bool) (l : List Bytes) :
-    emitArr a first l = fill a.key (a.sep.getD []) (arrSlots a.skipKey a.repeatKey a.skipValue a.sep.isSome first l.length) l := by
-  induction l generalizing first with
-  | nil => simp [emitArr, arrSlots, fill]
-  | cons v vs ih =>
-    simp only [emitArr, List.length_cons, arrSlots, fill_elem, ih false]
-
 /-- The number of argv elements an argument contributes, and which of them are keys, depends on its value
     only through the value's SHAPE (scalar, or array of n elements): the elements are the shape's layout
     filled with the values in order — no byte of a value can add, remove, split or merge elements. -/
@@ -192,17 +214,15 @@ theorem argv_shape_independent_of_values (a : RArg) :
     have := fill_elem a.key [] a.sep (!a.skipKey) (!a.skipValue) [] []
     simpa [emitArg, hv, Val.shape, Val.elems, slots, fill] using this.symm
 
-theorem consumers_append (x y : List Slot) : consumers (x ++ y) = consumers x + consumers y := by
-  induction x with
-  | nil => simp [consumers]
-  | cons s r ih => cases s <;> simp [consumers, ih] <;> omega
+/-- Spec on the trace, clause `argv_layout`: what the model emits for a kept argument is the block the
+    specification's own layout statement (`specArgBlock`: every value in one element, or
+    `key ++ separator ++ value` when a separator — the empty string included — is configured) demands. -/
+theorem model_block_meets_layout_spec (a : RArg) : emitArg a = specArgBlock a :=
+  argv_shape_independent_of_values a
 
-theorem consumers_arrSlots (sk rk sv hs first : Bool) (n : Nat) : consumers (arrSlots sk rk sv hs first n) = n := by
-  induction n generalizing first with
-  | zero => simp [arrSlots, consumers]
-  | succ n ih =>
-    simp only [arrSlots, consumers_append, ih]
-    cases first <;> cases sk <;> cases rk <;> cases sv <;> cases hs <;> simp [elemSlots, consumers] <;> omega
+-- the clause is not vacuous: `-p` with separator "" and value 3306 must arrive as `-p3306`
+example : specArgvLayout [[47, 112]] [{ order := 0, skipKey := false, repeatKey := true, skipValue := false, key := [45, 112], sep := some [], value := .str [51, 51, 48, 54] }] [[47, 112], [45, 112], [51, 51, 48, 54]] = some .argvLayout := by decide
+example : specArgvLayout [[47, 112]] [{ order := 0, skipKey := false, repeatKey := true, skipValue := false, key := [45, 112], sep := some [], value := .str [51, 51, 48, 54] }] [[47, 112], [45, 112, 51, 51, 48, 54]] = none := by decide
 
 /-- Each value occupies exactly one slot of the layout (hence, by `fill`, at most one element, whole):
     the layout has as many value-consuming slots as the argument has values. -/
@@ -346,59 +366,47 @@ theorem model_result_meets_spec (exit : Int) (raw : Bytes) :
     simp only [specOutput, processFinished, handledOutput, h]
     split <;> simp
 
-theorem expand_plain_esc (look : Bytes → Lookup) (rec : Bytes → Res) (m v : Bytes) (hm : m ≠ [])
-    (hv : look m = .found (.str v) false) :
-    expandMacro look rec true m = .ok (.str (escapeShellArg v), false) := by
-  simp [expandMacro, expandCore, hv, hm, escapeMacroShellArg, pure, Except.pure, bind, Except.bind]
+/-- Spec on the trace for string command lines, FULL over templates: for EVERY template (any number of
+    macros, macros inside words such as `--opt=$m$` or `pre$a$$b$post`, quotes and backslashes in the
+    literal text) in which every macro stands where the sh lexer is in its unquoted state
+    (`UnqAtMacros`, the hypothesis `shell_quote_roundtrip` forces) and every macro has a scalar value —
+    whatever bytes —, the model's command line read by the byte lexer yields exactly the words of the
+    template with each value verbatim in place of its macro (simulation `lexer_simulation` between the
+    lexer on the resolved line and the lexer on the template), which is what the specification predicate
+    `string_cmd_verbatim` demands.  Without `UnqAtMacros` the statement is false
+    (`shell_quote_needs_unquoted_counterexample`, F-C09a). -/
+theorem model_string_command_meets_spec (look : Bytes → Lookup) (fuel : Nat) (vo : Bytes → Option Bytes)
+    (tmpl : Bytes) (syms : List Sym) (hsym : symLine (tokenize tmpl) = some syms)
+    (hvals : ScalarMacros look (fun t => internalResolve look fuel false t) vo (tokenize tmpl))
+    (hunq : UnqAtMacros {} syms) :
+    ∃ line m, internalResolve look (fuel + 1) true tmpl = .ok (.str line, m) ∧
+      shWords line = (symWords syms).map (fun ws => ws.map (fillSym vo)) ∧
+      ∀ argv, shWords line = .ok argv → specStringCmd tmpl vo argv = none := by
+  obtain ⟨m, hm⟩ := concatToks_renderEsc look _ vo (tokenize tmpl) syms hsym hvals
+  refine ⟨renderEsc vo syms, m, ?_, shWords_renderEsc vo syms hunq, ?_⟩
+  · simp [internalResolve_esc, hm, Except.map]
+  · intro argv hargv
+    rw [shWords_renderEsc vo syms hunq] at hargv
+    have hall : (macroNames (tokenize tmpl)).all (fun n => (vo n).isSome) = true := by
+      simp only [List.all_eq_true]
+      intro n hn
+      obtain ⟨_, _, _, b, _, _, hb⟩ := hvals n hn
+      simp [hb]
+    cases hw : symWords syms with
+    | error e => simp [hw, Except.map] at hargv
+    | ok ws =>
+      simp only [hw, Except.map, Except.ok.injEq] at hargv
+      simp [specStringCmd, specExpectedArgv, hsym, hall, hw, hargv]
 
-theorem map_fill_id (vals : List Bytes) (l : List Bytes) (h : ∀ w ∈ l, fillWord vals w = w) : l.map (fillWord vals) = l := by
-  induction l with
-  | nil => rfl
-  | cons x xs ih => simp [h x (by simp), ih (fun w hw => h w (by simp [hw]))]
-
-/-- Spec on the trace for string command lines, PARTIAL: for a template `p $m$` whose prefix `p` leaves
-    the sh lexer between words in its unquoted state (the hypothesis `shell_quote_roundtrip` forces), with a
-    non-recursive macro of value `v` — any bytes — the model's command line, read by the lexer, gives exactly
-    the argument vector the specification predicate `string_cmd_verbatim` demands (the template's words
-    with `v` verbatim as one word).  FULL STATEMENT (every template, several macros, macros inside words):
-    not proved — it needs a simulation between the lexer run on the template and on the resolved line;
-    the driver evaluates the predicate on every end-to-end run instead.  For templates that put a macro
-    inside double quotes the statement is false (`shell_quote_needs_unquoted_counterexample`, F-C09a). -/
-theorem model_string_command_meets_spec_partial (look : Bytes → Lookup) (fuel : Nat) (p m v : Bytes) (s : ShSt)
-    (hp : DOLLAR ∉ p) (hmd : DOLLAR ∉ m) (hm : m ≠ [])
-    (hv : look m = .found (.str v) false)
-    (hpre : shRun {} p = .ok s) (hmode : s.mode = .unq) (hcur : s.cur = none)
-    (hfill : ∀ w ∈ s.done, fillWord [v] w = w)
-    (valueOf : Bytes → Option Bytes) (hval : valueOf m = some v) :
-    ∃ line argv, internalResolve look (fuel + 1) true (p ++ DOLLAR :: (m ++ [DOLLAR])) = .ok (.str line, false)
-      ∧ shWords line = .ok argv
-      ∧ specStringCmd (p ++ DOLLAR :: (m ++ [DOLLAR])) valueOf argv = none := by
-  refine ⟨p ++ escapeShellArg v, s.done.reverse ++ [v], ?_, (shell_quote_one_word p v s hpre hmode hcur).1, ?_⟩
-  · have htok := tokenize_macro p m [] hp hmd
-    have hnil : tokenize [] = [.lit []] := rfl
-    rw [hnil] at htok
-    simp only [internalResolve, htok]
-    split
-    · next h =>
-      simp only [List.cons.injEq, Tok.lit.injEq, Tok.mac.injEq] at h
-      obtain ⟨rfl, rfl, _⟩ := h
-      simp [expand_plain_esc look _ _ v hm hv]
-    · simp [concatToks, expand_plain_esc look _ m v hm hv, Val.scalarBytes, bind, Except.bind, pure, Except.pure]
-  · have htok := tokenize_macro p m [] hp hmd
-    have hnil : tokenize [] = [.lit []] := rfl
-    rw [hnil] at htok
-    obtain ⟨done, cur, mode⟩ := s
-    simp only at hmode hcur hfill
-    subst hmode hcur
-    have hrun : shWords (p ++ placeholder 0) = .ok (done.reverse ++ [placeholder 0]) := by
-      simp [shWords, shRun_append, hpre, placeholder, shRun, shStep, shSpecial, ShSt.push, ShSt.finish, SQUOTE, BSLASH, SPACE,
-        bind, Except.bind, pure, Except.pure]
-    have hfw : fillWord [v] (placeholder 0) = v := by
-      simp [placeholder, fillWord]
-    have hmap : (done.reverse ++ [placeholder 0]).map (fillWord [v]) = done.reverse ++ [v] := by
-      rw [List.map_append, map_fill_id [v] done.reverse (fun w hw => hfill w (by simpa using hw))]
-      simp [hfw]
-    simp [specStringCmd, specExpectedArgv, htok, substTemplate, macroNames, hval, hrun, hmap]
+-- non-vacuity: "/p -o=$a$ $b$$a$" with a = "x' $(" and b = "\n*": three words, the values verbatim
+example :
+    let look := resolveMacro [{ rname := [104], vars := [], attrs := [([97], .str [120, 39, 32, 36, 40]), ([98], .str [10, 42])] }]
+    let vo : Bytes → Option Bytes := fun n => if n = [97] then some [120, 39, 32, 36, 40] else if n = [98] then some [10, 42] else none
+    let tmpl : Bytes := [47, 112, 32, 45, 111, 61, 36, 97, 36, 32, 36, 98, 36, 36, 97, 36]
+    internalResolve look 14 true tmpl
+      = .ok (.str ([47, 112, 32, 45, 111, 61] ++ escapeShellArg [120, 39, 32, 36, 40] ++ [32] ++ escapeShellArg [10, 42]
+                   ++ escapeShellArg [120, 39, 32, 36, 40]), false) ∧
+    specStringCmd tmpl vo [[47, 112], [45, 111, 61, 120, 39, 32, 36, 40], [10, 42, 120, 39, 32, 36, 40]] = none := by decide
 
 -- the predicates are not vacuous: a wrong state, a perfdata part left in the output are rejected
 example : specExit 2 3 2 = some .exitMapping := by decide
